@@ -3463,6 +3463,15 @@ static Node *generic_selection(Token **rest, Token *tok) {
 //         | ident
 //         | str
 //         | num
+// A variable length array is represented by a pointer-sized object
+// that points to its storage; its alignment requirement is that of
+// its element type, like any other array.
+static int type_align(Type *ty) {
+  while (ty->kind == TY_VLA)
+    ty = ty->base;
+  return ty->align;
+}
+
 static Node *primary(Token **rest, Token *tok) {
   Token *start = tok;
 
@@ -3507,7 +3516,7 @@ static Node *primary(Token **rest, Token *tok) {
   if (equal(tok, "_Alignof") && equal(tok->next, "(") && is_typename(tok->next->next)) {
     Type *ty = typename(&tok, tok->next->next);
     *rest = skip(tok, ")");
-    return new_ulong(ty->align, tok);
+    return new_ulong(type_align(ty), tok);
   }
 
   if (equal(tok, "_Alignof")) {
@@ -3515,11 +3524,13 @@ static Node *primary(Token **rest, Token *tok) {
     add_type(node);
     // GNU: for an lvalue that names a declared object or member the
     // result is the alignment of the declaration (_Alignas, packed).
+    if (node->ty->kind == TY_VLA)
+      return new_ulong(type_align(node->ty), tok);
     if (node->kind == ND_VAR && node->var->align)
       return new_ulong(node->var->align, tok);
     if (node->kind == ND_MEMBER && !node->member->is_bitfield && node->member->align)
       return new_ulong(node->member->align, tok);
-    return new_ulong(node->ty->align, tok);
+    return new_ulong(type_align(node->ty), tok);
   }
 
   if (equal(tok, "_Generic"))
